@@ -70,10 +70,160 @@ SLICE_SPEC = {
     "feature/table_range.rs": [{"id": "ofs_loop", "fn": "generate", "for_over": "value_ranges . iter ()", "with_preceding_lets": ["ofs", "hl", "h"]}],
     "parser/values.rs": [{"id": "sort_site", "fn": "parse_values", "let_with_next": "values", "must_contain": "collect"}],
 }
+# second file (own verdicts, so that a lost anchor here does not leave the slices above undecided)
+DISC_SLICE_SPEC = [
+    {"id": "disc_step", "fn": "parse_values", "stmt_prefix": "if let Some (", "must_contain": ". discriminant . take ()"},
+    {"id": "disc_last", "fn": "parse_values", "stmt_prefix": "let mut last ="},
+    {"id": "disc_values", "fn": "parse_values", "stmt_prefix": "let mut values = HashMap"},
+    {"id": "pv_loop", "fn": "parse_values", "stmt_prefix": "for mut v in data . variants"},
+    {"id": "pv_body", "fn": "parse_values", "stmt_prefix": "if let Data :: Enum ( data ) = data"},
+]
+DISC_WRAPPERS = r'''
+verus! {
+/// parser/values.rs, parse_values: the two initialisations before the loop over the variants
+fn g_disc_init() -> (res: (HashMap<i64, (Ident, String)>, i64))
+    ensures res.0@ == Map::<i64, (Ident, String)>::empty(), res.1 == -1,
+{
+    broadcast use vstd::std_specs::hash::group_hash_axioms;
+@SLICE_disc_values@
+@SLICE_disc_last@
+    (values, last)
+}
+
+/// parser/values.rs, parse_values: the statement of the loop body that evaluates one variant's discriminant
+fn g_disc_step(v0: Variant, values: &mut HashMap<i64, (Ident, String)>, last0: i64, name: String, sorted: FeatureSorted, span: Span) -> (last: i64)
+    requires
+        // the variant's discriminant is implicit or an (optionally negated) integer literal ...
+        !(disc_abs(v0.discriminant) is Other),
+        // ... whose compiler-assigned value lies within i64 ...
+        i64::MIN <= rustc_val(disc_abs(v0.discriminant), last0 as int) <= i64::MAX,
+        // ... and differs from every earlier one (rustc rejects duplicates itself)
+        !old(values)@.contains_key(rustc_val(disc_abs(v0.discriminant), last0 as int) as i64),
+        // sorted(value) requested: the declaration is in ascending order
+        sorted.value ==> (old(values)@.len() == 0 || rustc_val(disc_abs(v0.discriminant), last0 as int) >= last0),
+    ensures
+        last as int == rustc_val(disc_abs(v0.discriminant), last0 as int),
+        final(values)@ == old(values)@.insert(last, (v0.ident, name)),
+{
+    let mut v = v0;
+    let mut last = last0;
+    broadcast use vstd::std_specs::hash::group_hash_axioms;
+@SLICE_disc_step@
+    last
+}
+
+pub proof fn __vx_canary_disc() ensures false { }
+} // verus!
+fn main() {}
+'''
+DISC_FUNCS = {"g_disc_init": ["disc_values", "disc_last"], "g_disc_step": ["disc_step"], "lemma_disc_sequence": [], "lemma_trace_prefix": [], "__vx_canary_disc": []}
 
 EXPECTED_SORT_SITE = ("let mut values = values . iter () . map (| (k , v) | (* k , v . clone ())) . collect ::< Vec < _ >> () ;",
                       "values . sort_by_key (| v | v . 0) ;")
 EXPECTED_TEMPLATES = ["( # b1 ..= # e1 , ( # b1 ) . wrapping_sub ( # o1 ) )", "( # b1 ..= # e1 , () )"]
+
+
+def _eval_functions(text, js, refut, names, src_of_map, slices, out):
+    """status per named function of an assembled Verus file: refutations by line range + the per-function SMT breakdown"""
+    import hashlib
+    lines = text.split("\n")
+    ranges = {}
+    for name in names:
+        for i, l in enumerate(lines):
+            if re.search(r"\bfn %s\b" % name, l):
+                # function extends to the next line starting with "fn "/"pub fn"/"/// " at column 0, or "}" at col 0
+                j = i + 1
+                while j < len(lines) and not re.match(r"^(pub )?(proof )?fn |^pub proof fn |^/// |^} // verus", lines[j]):
+                    j += 1
+                ranges[name] = (i + 1, j)
+    fb = {}
+    try:
+        for m in js["times-ms"]["smt"]["smt-run-module-times"]:
+            for f in m.get("function-breakdown", []):
+                fb.setdefault(f["function"].split("::")[-1], []).append(f)
+    except Exception:
+        pass
+    for name, (a, b) in ranges.items():
+        hits = [r for r in refut if a <= r[0] <= b]
+        ok = [f.get("success", True) for f in fb.get(name, [])]
+        st = "verified"
+        if hits:
+            st = "failed"
+        elif not ok or not all(ok):
+            st = "undecided"
+        src_of = src_of_map.get(name, [])
+        body_hash = hashlib.sha1("|".join((slices.get(k, {}).get("raw") or "") for k in src_of).encode()).hexdigest() if src_of else None
+        out[name] = {"status": st, "reason": "\n".join(h[2] for h in hits[:2]), "time_ms": sum(f.get("time", 0) for f in fb.get(name, [])),
+                     "kinds": sorted({layer_t.refutation_kind(h[1], h[2]) for h in hits}), "body_hash": body_hash}
+    return ranges
+
+
+def _depth_of(hay, needle):
+    i = hay.find(needle)
+    if i < 0:
+        return None
+    return hay[:i].count("{") - hay[:i].count("}")
+
+
+def run_disc(scratch, ov):
+    """Second Verus file: the discriminant evaluation of parse_values (C11), sliced verbatim."""
+    res = {"functions": {}, "problems": []}
+    spec_path = os.path.join(scratch, "gspec_disc.json")
+    with open(spec_path, "w") as f:
+        json.dump({"items": DISC_SLICE_SPEC, "overlay": ov}, f)
+    rc, out, err, dt = run([VX, "slice", os.path.join(REPO, "src", "parser", "values.rs"), spec_path])
+    if rc != 0:
+        res["problems"].append("vx slice failed on parser/values.rs: %s" % err[-600:])
+        return res
+    slices = json.loads(out)
+    for k, v in slices.items():
+        for e in v.get("errors", []):
+            res["problems"].append("%s: %s" % (k, e))
+    res["slices"] = {k: (v.get("raw") or "")[:1500] for k, v in slices.items() if k.startswith("disc_")}
+    if res["problems"]:
+        return res
+    # threading (structural, on the flat token text): the step is a statement of the loop body itself, the loop is the only
+    # loop over the variants, and nothing outside the three slices writes `last` or `values` before the sort site
+    step, loop, body = (slices[k]["raw"] for k in ("disc_step", "pv_loop", "pv_body"))
+    rest = body.replace(step, " ").replace(slices["disc_last"]["raw"], " ").replace(slices["disc_values"]["raw"], " ")
+    rest_loop = loop.replace(step, " ")
+    thr = []
+    if _depth_of(loop, step) != 1:
+        thr.append("the discriminant statement is not a direct statement of the `for mut v in data.variants` body")
+    if body.count(step) != 1 or body.count(loop) != 1:
+        thr.append("the loop / the discriminant statement is not unique in parse_values")
+    if re.search(r"\blast\s*(=[^=]|\+=|-=)", rest) or re.search(r"& mut last\b", rest):
+        thr.append("`last` is written outside the sliced statements")
+    if re.search(r"\bvalues \. (insert|remove|clear|retain|entry|extend|drain|get_mut|iter_mut|values_mut)\b|& mut values\b", rest):
+        thr.append("`values` is modified outside the sliced statements")
+    if re.search(r"\b(continue|break|return)\b", rest_loop):
+        thr.append("the loop body can skip the discriminant statement (continue / break / return)")
+    res["threading"] = {"ok": not thr, "problems": thr,
+                        "what": "g_disc_step's statement runs once per variant in declaration order; `last` and `values` are written only by the sliced statements"}
+    text = open(os.path.join(VERIF, "contracts", "gen_disc_prelude.rs")).read() + DISC_WRAPPERS
+    for k, v in slices.items():
+        text = text.replace("@SLICE_%s@" % k, v.get("text") or "")
+    path = os.path.join(scratch, "layer_g_disc.rs")
+    with open(path, "w") as f:
+        f.write(text)
+    rc, js, err, dt = layer_t.verify_file(path)
+    res["wall_s"] = dt
+    if js is None or "verification-results" not in js:
+        res["error"] = "verus produced no result: " + err[-3000:]
+        return res
+    refut, other = layer_t.classify(err)
+    hard = [o for o in other if re.match(r"error(\[E\d+\])?:", o) and "rlimit" not in o.lower()]
+    if hard:
+        res["error"] = "verus/rustc rejected the assembled discriminant file:\n" + "\n".join(hard[:3])
+        return res
+    ranges = _eval_functions(text, js, refut, tuple(DISC_FUNCS), DISC_FUNCS, slices, res["functions"])
+    un = [r for r in refut if not any(a <= r[0] <= b for (a, b) in ranges.values())]
+    if un:
+        res["error"] = "a lemma of the discriminant prelude no longer verifies:\n" + un[0][2]
+    res["verified"] = js["verification-results"].get("verified")
+    res["errors"] = js["verification-results"].get("errors")
+    res["assumptions"] = layer_t.scan_assumptions(text)
+    return res
 
 
 def run_layer_g(scratch):
@@ -129,6 +279,12 @@ def run_layer_g(scratch):
     res["sort_site_found"] = raw[:400]
     res["hashmap_insert_checked"] = "values.insert(" in vsrc and "DuplicateValue" in vsrc
     res["templates_as_expected"] = (res["templates"] == EXPECTED_TEMPLATES)
+    try:
+        res["disc"] = run_disc(scratch, {k: v for k, v in ov.items() if k.startswith("disc_")})
+    except Undecided:
+        raise
+    except Exception as e:  # machinery error: undecided for the obligations of this file only
+        res["disc"] = {"functions": {}, "problems": ["run_disc: %r" % (e,)]}
     if problems:
         return res
     path = os.path.join(scratch, "layer_g.rs")
@@ -144,36 +300,8 @@ def run_layer_g(scratch):
     if hard:
         res["error"] = "verus/rustc rejected the assembled generator file:\n" + "\n".join(hard[:3])
         return res
-    lines = text.split("\n")
-    ranges = {}
-    for name in ("g_parse_runs", "g_range_table", "__vx_canary", "lemma_canonical_order"):
-        for i, l in enumerate(lines):
-            if re.search(r"\bfn %s\b" % name, l):
-                # function extends to the next line starting with "fn "/"pub fn"/"/// " at column 0, or "}" at col 0
-                j = i + 1
-                while j < len(lines) and not re.match(r"^(pub )?(proof )?fn |^pub proof fn |^/// |^} // verus", lines[j]):
-                    j += 1
-                ranges[name] = (i + 1, j)
-    fb = {}
-    try:
-        for m in js["times-ms"]["smt"]["smt-run-module-times"]:
-            for f in m.get("function-breakdown", []):
-                fb.setdefault(f["function"].split("::")[-1], []).append(f)
-    except Exception:
-        pass
-    for name, (a, b) in ranges.items():
-        hits = [r for r in refut if a <= r[0] <= b]
-        ok = [f.get("success", True) for f in fb.get(name, [])]
-        st = "verified"
-        if hits:
-            st = "failed"
-        elif not ok or not all(ok):
-            st = "undecided"
-        import hashlib
-        src_of = {"g_parse_runs": ["min_key", "max_key", "value_ranges", "mode", "Mode"], "g_range_table": ["ofs_loop"]}.get(name, [])
-        body_hash = hashlib.sha1("|".join((slices.get(k, {}).get("raw") or "") for k in src_of).encode()).hexdigest() if src_of else None
-        res["functions"][name] = {"status": st, "reason": "\n".join(h[2] for h in hits[:2]), "time_ms": sum(f.get("time", 0) for f in fb.get(name, [])),
-                                  "kinds": sorted({layer_t.refutation_kind(h[1], h[2]) for h in hits}), "body_hash": body_hash}
+    ranges = _eval_functions(text, js, refut, ("g_parse_runs", "g_range_table", "__vx_canary", "lemma_canonical_order"),
+                             {"g_parse_runs": ["min_key", "max_key", "value_ranges", "mode", "Mode"], "g_range_table": ["ofs_loop"]}, slices, res["functions"])
     # a refutation outside the named functions (a lemma of the prelude) leaves everything undecided
     un = [r for r in refut if not any(a <= r[0] <= b for (a, b) in ranges.values())]
     if un:
